@@ -34,6 +34,11 @@ ASSUMPTIONS = [
     "sound_off (pedal semantics, C14), channel and track are not part of the statement and are not compared",
     "signature lines of the written file are required to carry the position (beat 1, offset 0, time in beats) of the "
     "bar start where the signature is written and the measure number used by the note lines of that bar",
+    "the times in seconds of a performed part are the reference: tick counts stored in its notes (parts read from MIDI or "
+    "match files) and the clock the part declares do not change what is saved; loaded ticks = saved seconds in the requested "
+    "ppq/mpq (space resave)",
+    "a parsed MatchFile may be queried any number of times; with first_note_at_zero the note times are the saved ones minus "
+    "the earliest onset (ticks and seconds), pedal times are left open there (space reuse)",
     "generator preconditions: >= 1 match per alignment; a time signature at the start; signature changes at barlines of "
     "bars that hold a note; pickups begin with a note; voices and staves given; ids without '-1'; performed notes of "
     "equal pitch do not overlap; no textually identical pedal events",
@@ -1380,6 +1385,8 @@ def gen_resave(full):
                     variants = [("built", f, d) for f in ("both", "on") for d in ("src", "midi", "req")]
                     variants += [("match", "both", "src"), ("midi", "both", "midi")]
                     for via, fields, decl in variants:
+                        if via == "built" and len(ped) == 1 and not full:
+                            continue  # quick tier: hand-built parts with the empty and the 3-event stream only
                         kw = dict(defaults=True) if req is None else dict(ppq=req[0], mpq=req[1])
                         c = mk_case(sc, align=align, perf=perf, ctrl=ctrl, via=via, **kw)
                         c["perf"]["src"] = [ppq_s, mpq_s, fields]
@@ -1412,6 +1419,8 @@ def gen_reuse(full):
                          ["insertion", None, "n2", None], ["ornament", "s2", "n3", "trill"]]
                 base = mk_case(sc, align=align, perf=perf, ctrl=ped, ppq=ppq, mpq=mpq)
                 for ops in seqs:
+                    if len(ops) == 3 and not ped and not full:
+                        continue  # quick tier: the bases without pedal lines get the sequences up to length 2
                     yield dict(kind="reuse", base=base, ops=ops)
 
 
@@ -1628,14 +1637,14 @@ def spaces(tier, seed):
     sp.append(Space("resave", lambda: gen_resave(thorough), True,
                     "performed parts whose notes carry tick counts (note_on_tick/note_off_tick), saved with another clock: %d "
                     "source clocks x %d requested clocks (same ppq other mpq, both equal, both different, exporter defaults) x 2 "
-                    "note-time sets x 3 pedal streams x {hand-built with both / only the onset tick field x declared clock "
+                    "note-time sets x 3 pedal streams%s x {hand-built with both / only the onset tick field x declared clock "
                     "source / (ppq_s, 500000) / requested; part returned by load_match; part returned by load_performance_midi}"
-                    % ((7, 8) if thorough else (5, 6))))
+                    % ((7, 8, "") if thorough else (5, 6, " (hand-built: the empty and the 3-event stream)"))))
     sp.append(Space("reuse", lambda: gen_reuse(thorough), True,
                     "one parsed MatchFile queried repeatedly: every sequence of 1..%d operations over {performed part, "
                     "performed part with first_note_at_zero, score part, alignment, write+reload}, every result compared with "
                     "the saved data; fresh load_match with/without first_note_at_zero; bases: earliest onset tick {0,7,960} x "
-                    "%d clocks x pedals {none, 3 events}" % ((4, 3) if thorough else (3, 2))))
+                    "%d clocks x pedals {none, 3 events}%s" % ((4, 3, "") if thorough else (3, 2, "; length-3 sequences for the bases with pedals"))))
     b_dup = ("hand-written files (independent writer): every subset of <=4 of 11 note lines with shared ids, both orders, "
              "textual repetitions; dialects ")
     if thorough:
